@@ -68,9 +68,21 @@ func (d *smInt) load(via string, keys []string, vals []int) (err error) {
 		for i, k := range keys {
 			mm[k] = vals[i]
 		}
-		return d.m.LoadFromMap(mm)
+		err = d.m.LoadFromMap(mm)
+		for k := range mm { // the caller goes on using its map
+			delete(mm, k)
+		}
+		return err
 	}
-	return d.m.LoadFromSlice(keys, vals)
+	kk, vv := append([]string(nil), keys...), append([]int(nil), vals...)
+	err = d.m.LoadFromSlice(kk, vv)
+	for i := range kk { // ... and its slices
+		kk[i] = "\x00overwritten"
+	}
+	for i := range vv {
+		vv[i] = -7
+	}
+	return err
 }
 func (d *smInt) get(k string) (string, bool) {
 	v, ok := d.m.Get(k)
@@ -124,9 +136,21 @@ func (d *smSt) load(via string, keys []string, vals []int) (err error) {
 		for i, k := range keys {
 			mm[k] = vv[i]
 		}
-		return d.m.LoadFromMap(mm)
+		err = d.m.LoadFromMap(mm)
+		for k := range mm {
+			delete(mm, k)
+		}
+		return err
 	}
-	return d.m.LoadFromSlice(keys, vv)
+	kk := append([]string(nil), keys...)
+	err = d.m.LoadFromSlice(kk, vv)
+	for i := range kk {
+		kk[i] = "\x00overwritten"
+	}
+	for i := range vv {
+		vv[i] = smStruct{A: -7, B: -7}
+	}
+	return err
 }
 func (d *smSt) get(k string) (string, bool) {
 	v, ok := d.m.Get(k)
@@ -195,9 +219,21 @@ func (d *smS2S) load(via string, keys []string, vals []int) (err error) {
 		for i, k := range keys {
 			mm[k] = vv[i]
 		}
-		return d.m.LoadFromMap(mm)
+		err = d.m.LoadFromMap(mm)
+		for k := range mm {
+			delete(mm, k)
+		}
+		return err
 	}
-	return d.m.LoadFromSlice(keys, vv)
+	kk := append([]string(nil), keys...)
+	err = d.m.LoadFromSlice(kk, vv)
+	for i := range kk {
+		kk[i] = "\x00overwritten"
+	}
+	for i := range vv {
+		vv[i] = "\x00overwritten value"
+	}
+	return err
 }
 func (d *smS2S) get(k string) (string, bool) {
 	v, ok := d.m.Get(k)
